@@ -118,7 +118,11 @@ import operator as _operator
 # the list `a` in place, which is exactly what the abstract run has to see.  bare names are what `from functools import reduce` etc. bind
 _SAFE_STDLIB = {_functools.reduce, _operator.add, _operator.concat, _operator.iconcat, _operator.iadd, _operator.mul, _operator.sub, _operator.eq, _operator.ne,
                 _operator.lt, _operator.le, _operator.gt, _operator.ge, _operator.not_, _operator.and_, _operator.or_, _operator.getitem, _operator.contains, _operator.neg}
+import re as _re
+
+_SAFE_STDLIB |= {_re.findall, _re.match, _re.fullmatch, _re.search, _re.sub, _re.split, dict.fromkeys}
 _WELL_KNOWN = {
+    "re": {"__namespace__": True, "findall": _re.findall, "match": _re.match, "fullmatch": _re.fullmatch, "search": _re.search, "sub": _re.sub, "split": _re.split},
     "operator": {"__namespace__": True, **{f.__name__: f for f in _SAFE_STDLIB if f is not _functools.reduce}},
     "functools": {"__namespace__": True, "reduce": _functools.reduce},
     "reduce": _functools.reduce,
@@ -196,6 +200,8 @@ class Evaluator:
         for t, names in _SAFE_METHODS.items():
             if isinstance(v, t) and n.attr in names:
                 return getattr(v, n.attr)
+        if v is dict and n.attr == "fromkeys":
+            return dict.fromkeys
         if isinstance(v, dict) and n.attr in v and v.get("__namespace__"):
             return v[n.attr]
         raise Unknown(f"attribute .{n.attr} of {type(v).__name__}")
@@ -359,7 +365,10 @@ class Evaluator:
             yield leaf(env)
             return
         g = gens[0]
-        for item in self.ev(g.iter, env):
+        it_ = self.ev(g.iter, env)
+        if it_ is None or isinstance(it_, (bool, int, float)):
+            raise EvalRaised("TypeError", f"'{type(it_).__name__}' object is not iterable")
+        for item in it_:
             e2 = dict(env)
             self.bind(g.target, item, e2)
             if all(self.truth(self.ev(c, e2)) for c in g.ifs):
@@ -499,6 +508,9 @@ class Evaluator:
             except Exception as e:
                 if f is _functools.reduce and "empty iterable with no initial value" in str(e):
                     raise EvalRaised("TypeError", str(e))  # what the evaluated code does on an empty collection
+                if isinstance(e, TypeError) and f in (tuple, list, set, frozenset, dict, sorted, sum, max, min, len, enumerate, zip, iter, map, filter, reversed, any, all) \
+                        and any(a_ is None or isinstance(a_, (bool, int, float)) for a_ in args):
+                    raise EvalRaised("TypeError", str(e))  # e.g. tuple(None), len(5): the evaluated code itself fails that way
                 raise Unknown(f"call failed: {e}")
         raise Unknown(f"call of {f!r} outside the fragment")
 
@@ -602,7 +614,10 @@ class Evaluator:
                     continue  # an expression statement the rule's model knows (e.g. a warning): evaluated for effect only
             if isinstance(st, ast.For) and not st.orelse:
                 it = self.ev(st.iter, env)
-                if not isinstance(it, (list, tuple, range, str, dict, set, frozenset)) and not hasattr(it, "__next__") and type(it).__name__ != "Arr":
+                if it is None or isinstance(it, (bool, int, float)):
+                    raise EvalRaised("TypeError", f"'{type(it).__name__}' object is not iterable")
+                if not isinstance(it, (list, tuple, range, str, dict, set, frozenset, type({}.items()), type({}.keys()), type({}.values()))) \
+                        and not hasattr(it, "__next__") and type(it).__name__ != "Arr":
                     raise Unknown("loop over an untracked iterable")
                 n_iter = 0
                 for item in list(it):
